@@ -8,7 +8,7 @@
 (*   Failing(d, h0, h1, prev, step) names of the clauses that are false at this step          *)
 (* The same three operators are used by MC*.tla (on Observe(state) of Spec B) and by         *)
 (* Trace.tla (on steps recorded from the real conductor).                                    *)
-EXTENDS Definition
+EXTENDS Definition, Lifecycle
 
 Rejections == {"InvalidWorkflowStatusTransition", "WorkflowIsActiveAndNotRerunableError",
                "InvalidTaskRerunRequest"}
@@ -215,6 +215,7 @@ HStepCore(d, h, prev, step) ==
                                  IN IF m = {} THEN Tail(@) ELSE RemoveAt(@, CHOOSE i \in m : \A j \in m : i <= j),
                          !.its = (Rid(c.task, c.route) :>
                                     (IF h0.rerun /\ <<c.task, c.route>> \in h0.rerunReq /\ c.item >= 0
+                                        /\ RecSt(prev, c.task, c.route) # "retrying"    \* a retry attempt starts afresh
                                      THEN [ItsOf(h0, Rid(c.task, c.route)) EXCEPT !.started = @ \cup {c.item}]
                                      ELSE [started |-> IF c.item >= 0 THEN {c.item} ELSE {}, st |-> << >>])) @@ @,
                          !.att = (Rid(c.task, c.route) :>
@@ -375,6 +376,16 @@ C04_final(h0, prev, step) ==
           /\ step.call.st = "failed" /\ step.ret = "ok"
 C04_reject_pure(prev, step) ==
   (step.call.op \in {"req", "rerun"} /\ step.ret # "ok") => Persisted(step.obs) = Persisted(prev)
+(* a status request for which the lifecycle has no row in a resting status is rejected with an error *)
+ActiveIn(obs) == \E k \in DOMAIN obs.ptr : obs.seq[obs.ptr[k] + 1].st \in ActiveSt
+ReqEvent(obs, st) ==
+  LET base == "workflow_" \o st IN
+  IF st \in {"pausing", "paused", "canceling", "canceled"}
+  THEN base \o (IF ActiveIn(obs) THEN "_workflow_active" ELSE "_workflow_dormant") ELSE base
+C04_forbidden_rejected(prev, step) ==
+  (step.call.op = "req" /\ prev.wf \in {"failed", "canceled", "succeeded", "paused"} /\ step.call.st # prev.wf
+     /\ ~WfHasRow(prev.wf, ReqEvent(prev, step.call.st))
+     /\ ~WfHasRow(prev.wf, ReqEvent(prev, step.call.st) \o "_workflow_completed")) => step.ret # "ok"
 C04_reject_class(step) ==
   (step.call.op \in {"req", "rerun"} /\ step.ret # "ok") => step.ret \in Rejections
 
@@ -512,7 +523,8 @@ C11_no_offer_after(h1, step) == (step.obs.q /\ HasErr(step.obs, "expr") /\ ~h1.r
 ItemOffers(d, step) == {i \in 1..Len(step.obs.offers) : step.obs.offers[i].nitems >= 0}
 InFlightOf(obs, t, r) == {k \in 1..Len(obs.infl) : obs.infl[k][1] = t /\ obs.infl[k][2] = r /\ obs.infl[k][3] >= 0}
 WindowOf(d, t, n) == LET c == d.tasks[t].conc IN IF c = -1 THEN n ELSE IF c <= 0 THEN 1 ELSE c
-StartedOf(h, obs, t, r) == IF OpenRec(obs, t, r) \/ (h.rerun /\ <<t, r>> \in h.rerunReq)
+StartedOf(h, obs, t, r) == IF RecSt(obs, t, r) = "retrying" THEN {}          \* a retry attempt offers every item again
+                           ELSE IF OpenRec(obs, t, r) \/ (h.rerun /\ <<t, r>> \in h.rerunReq)
                            THEN ItsOf(h, Rid(t, r)).started ELSE {}
 C12_shape(d, step) ==
   step.obs.q => \A i \in 1..Len(step.obs.offers) :
@@ -672,6 +684,7 @@ Failing(d, h0, h1, prev, step) ==
   FP("C04", "C04_absorb",          C04_absorb(h0, step)) \cup
   FP("C04", "C04_final",           C04_final(h0, prev, step)) \cup
   FP("C04", "C04_reject_pure",     C04_reject_pure(prev, step)) \cup
+  FP("C04", "C04_forbidden_rejected", C04_forbidden_rejected(prev, step)) \cup
   FP("C04", "C04_reject_class",    C04_reject_class(step)) \cup
   FP("C06", "C06_ctx",             C06_ctx(d, h1, step)) \cup
   FP("C06", "C06_record",          C06_record(d, h0, h1, prev, step)) \cup
@@ -746,7 +759,7 @@ KF_C12_items_reset_by_late_arrival(d, h1, step) ==
      /\ \E i \in ItemOffers(d, step) :
           LET o == step.obs.offers[i]
               g == GenOf(h1, Rid(o.id, o.route))
-          IN /\ IsJoin(d, o.id) /\ OpenRec(step.obs, o.id, o.route)
+          IN /\ IsJoin(d, o.id) /\ (OpenRec(step.obs, o.id, o.route) \/ h1.rerun)
              /\ g.fired /\ g.started
              /\ Need(d, o.id) < Cardinality(Inbound(d, o.id))
              /\ Cardinality(g.arr) > Need(d, o.id)
